@@ -46,7 +46,31 @@ struct CallObs { Snap before, after; size_t ev_begin = 0, ev_end = 0, draws = 0;
 struct Exec { Log log; std::vector<CallObs> calls; Str used; std::string thrown; };
 
 static Snap snapshot(const TasOptimization::ParticleSwarmState &s){ Snap q; q.pos = s.getParticlePositions(); q.vel = s.getParticleVelocities(); q.best = s.getBestParticlePositions(); q.cache_init = s.isCacheInitialized(); q.best_init = s.isBestPositionInitialized(); return q; }
-static void run_library(const Cfg &c, const Prog &prog, const Str &s, Exec &ex){
+// the same state read through the raw-array getters (api 1) and through the C interface (api 2)
+extern "C" {
+    typedef double (*c_rng_fn)(); typedef int (*c_dom_fn)(const int, const double[], int[]); typedef void (*c_obj_fn)(const int, const int, const double[], double[], int[]);
+    void* tsgParticleSwarmState_Construct(int, int); void tsgParticleSwarmState_Destruct(void*);
+    void tsgParticleSwarmState_GetParticlePositions(void*, double[]); void tsgParticleSwarmState_GetParticleVelocities(void*, double[]); void tsgParticleSwarmState_GetBestParticlePositions(void*, double[]);
+    int tsgParticleSwarmState_IsBestPositionInitialized(void*); int tsgParticleSwarmState_IsCacheInitialized(void*);
+    void tsgParticleSwarmState_SetParticlePositions(void*, const double[]); void tsgParticleSwarmState_SetParticleVelocities(void*, const double[]); void tsgParticleSwarmState_SetBestParticlePositions(void*, const double[]);
+    void tsgParticleSwarmState_ClearBestParticles(void*); void tsgParticleSwarmState_ClearCache(void*);
+    void tsgParticleSwarm(const c_obj_fn, const c_dom_fn, const double, const double, const double, const int, void*, const char*, const int, c_rng_fn, int*);
+}
+static const char *APINAME[3] = {"vector-overloads", "array-overloads", "c-interface"};
+static Snap snapshot_api(TasOptimization::ParticleSwarmState &s, const Cfg &c, int api){
+    if (api == 0) return snapshot(s);
+    Snap q; size_t n = (size_t)(c.np * c.d); q.pos.assign(n, -77.0); q.vel.assign(n, -77.0); q.best.assign(n + (size_t) c.d, -77.0);
+    if (api == 1){ s.getParticlePositions(q.pos.data()); s.getParticleVelocities(q.vel.data()); s.getBestParticlePositions(q.best.data()); q.cache_init = s.isCacheInitialized(); q.best_init = s.isBestPositionInitialized(); }
+    else{ void *h = (void*) &s; tsgParticleSwarmState_GetParticlePositions(h, q.pos.data()); tsgParticleSwarmState_GetParticleVelocities(h, q.vel.data()); tsgParticleSwarmState_GetBestParticlePositions(h, q.best.data());
+          q.cache_init = tsgParticleSwarmState_IsCacheInitialized(h) != 0; q.best_init = tsgParticleSwarmState_IsBestPositionInitialized(h) != 0; }
+    return q;
+}
+static const Cfg *cb_cfg = nullptr; static Log *cb_log = nullptr; static Script *cb_sc = nullptr; static TasDREAM::DreamDomain *cb_box = nullptr;
+static double cb_rng(){ double v = cb_sc->next(); cb_log->add('R', false, &v, 1, nullptr, 0); return v; }
+static int cb_dom(const int nd, const double x[], int err[]){ *err = 0; const Cfg &c = *cb_cfg; std::vector<double> xv(x, x + nd); bool a = (c.dom == 0) ? true : (c.dom == 4) ? false : (*cb_box)(xv); cb_log->add('I', a, x, (size_t) nd, nullptr, 0); return a ? 1 : 0; }
+static void cb_obj(const int nd, const int nb, const double x[], double f[], int err[]){ *err = 0; const Cfg &c = *cb_cfg; for(int i=0;i<nb;i++) f[i] = my_obj(c, x + (size_t) i * (size_t) nd); cb_log->add('F', false, x, (size_t) nd * (size_t) nb, f, (size_t) nb); }
+// api 0: std::vector overloads of the setters/getters and the C++ ParticleSwarm(); api 1: the raw-array overloads; api 2: everything through the C interface
+static void run_library(const Cfg &c, const Prog &prog, const Str &s, Exec &ex, int api = 0){
     using namespace TasOptimization;
     Script sc; sc.reset(s); Log &log = ex.log; log.ev.reserve(64); log.data.reserve(256);
     auto rng = [&]()->double{ double v = sc.next(); log.add('R', false, &v, 1, nullptr, 0); return v; };
@@ -54,22 +78,52 @@ static void run_library(const Cfg &c, const Prog &prog, const Str &s, Exec &ex){
     TasDREAM::DreamDomain lib_box = TasDREAM::hypercube(std::vector<double>(lo, lo + c.d), std::vector<double>(hi, hi + c.d));
     TasDREAM::DreamDomain inside = [&](const std::vector<double> &x)->bool{ bool a = (c.dom == 0) ? true : (c.dom == 4) ? false : lib_box(x); log.add('I', a, x.data(), x.size(), nullptr, 0); return a; };
     ObjectiveFunction f = [&](const std::vector<double> &xb, std::vector<double> &fv)->void{ for(size_t i=0;i<fv.size() && (i+1)*(size_t)c.d <= xb.size();i++) fv[i] = my_obj(c, &xb[i*(size_t)c.d]); log.add('F', false, xb.data(), xb.size(), fv.data(), fv.size()); };
+    cb_cfg = &c; cb_log = &log; cb_sc = &sc; cb_box = &lib_box;
+    ParticleSwarmState *sp = nullptr;
     try{
-        ParticleSwarmState state(c.d, c.np);
-        state.setParticlePositions(init_pos(c)); state.setParticleVelocities(init_vel(c));
+        sp = (api == 2) ? reinterpret_cast<ParticleSwarmState*>(tsgParticleSwarmState_Construct(c.d, c.np)) : new ParticleSwarmState(c.d, c.np);
+        ParticleSwarmState &state = *sp; void *h = (void*) sp;
+        auto set_pos = [&](const std::vector<double> &v){ if (api == 0) state.setParticlePositions(v); else if (api == 1) state.setParticlePositions(v.data()); else tsgParticleSwarmState_SetParticlePositions(h, v.data()); };
+        auto set_vel = [&](const std::vector<double> &v){ if (api == 0) state.setParticleVelocities(v); else if (api == 1) state.setParticleVelocities(v.data()); else tsgParticleSwarmState_SetParticleVelocities(h, v.data()); };
+        auto set_best = [&](const std::vector<double> &v){ if (api == 0) state.setBestParticlePositions(v); else if (api == 1) state.setBestParticlePositions(v.data()); else tsgParticleSwarmState_SetBestParticlePositions(h, v.data()); };
+        auto clear_cache = [&](){ if (api == 2) tsgParticleSwarmState_ClearCache(h); else state.clearCache(); };
+        auto clear_best = [&](){ if (api == 2) tsgParticleSwarmState_ClearBestParticles(h); else state.clearBestParticles(); };
+        set_pos(init_pos(c)); set_vel(init_vel(c));
         for(auto &op : prog){
             if (op.t == 'E'){
-                switch(op.v){ case 1: state.clearCache(); break; case 2: state.clearBestParticles(); break; case 3: state.setParticlePositions(manual_pos(c)); break;
-                    case 4: state.setParticlePositions(manual_pos(c)); state.clearCache(); break; case 5: state.clearBestParticles(); state.clearCache(); break;
-                    case 6: state.setBestParticlePositions(manual_best(c)); state.clearCache(); break; default: break; }
+                switch(op.v){ case 1: clear_cache(); break; case 2: clear_best(); break; case 3: set_pos(manual_pos(c)); break;
+                    case 4: set_pos(manual_pos(c)); clear_cache(); break; case 5: clear_best(); clear_cache(); break;
+                    case 6: set_best(manual_best(c)); clear_cache(); break; default: break; }
             }else{
-                ex.calls.emplace_back(); CallObs &co = ex.calls.back(); co.iters = op.v; co.before = snapshot(state); co.ev_begin = log.ev.size();
-                ParticleSwarm(f, inside, c.w(), c.c1(), c.c2(), op.v, state, rng);
-                co.ev_end = log.ev.size(); co.after = snapshot(state); co.draws = sc.pos;
+                ex.calls.emplace_back(); CallObs &co = ex.calls.back(); co.iters = op.v; co.before = snapshot_api(state, c, api); co.ev_begin = log.ev.size();
+                if (api == 2){ int err = 0; tsgParticleSwarm(cb_obj, cb_dom, c.w(), c.c1(), c.c2(), op.v, h, "callback", 1, cb_rng, &err); if (err != 0) throw std::runtime_error("tsgParticleSwarm returned error code " + std::to_string(err)); }
+                else ParticleSwarm(f, inside, c.w(), c.c1(), c.c2(), op.v, state, rng);
+                co.ev_end = log.ev.size(); co.after = snapshot_api(state, c, api); co.draws = sc.pos;
             }
         }
     }catch(std::exception &e){ ex.thrown = e.what(); }
+    if (sp){ if (api == 2) tsgParticleSwarmState_Destruct((void*) sp); else delete sp; }
     ex.used = sc.used;
+}
+// two executions of the same program and answer string must be identical: callbacks (kinds, arguments, returned values), state before/after every call, draws consumed
+static std::string exec_difference(const Exec &a, const Exec &b){
+    if (a.thrown != b.thrown) return "exception '" + a.thrown + "' vs '" + b.thrown + "'";
+    if (a.calls.size() != b.calls.size()) return "number of completed calls";
+    for(size_t i=0;i<a.calls.size();i++){ const CallObs &x = a.calls[i], &y = b.calls[i]; std::string at = "call " + std::to_string(i + 1) + ": ";
+        if (!same_bits(x.before.pos, y.before.pos)) return at + "positions before the call " + vstr(x.before.pos) + " vs " + vstr(y.before.pos);
+        if (!same_bits(x.before.vel, y.before.vel)) return at + "velocities before the call " + vstr(x.before.vel) + " vs " + vstr(y.before.vel);
+        if (!same_bits(x.before.best, y.before.best)) return at + "best positions before the call " + vstr(x.before.best) + " vs " + vstr(y.before.best);
+        if (x.before.best_init != y.before.best_init || x.before.cache_init != y.before.cache_init) return at + "flags before the call";
+        if (x.ev_end - x.ev_begin != y.ev_end - y.ev_begin) return at + std::to_string(x.ev_end - x.ev_begin) + " vs " + std::to_string(y.ev_end - y.ev_begin) + " callbacks";
+        if (!same_bits(x.after.pos, y.after.pos)) return at + "positions after the call " + vstr(x.after.pos) + " vs " + vstr(y.after.pos);
+        if (!same_bits(x.after.vel, y.after.vel)) return at + "velocities after the call " + vstr(x.after.vel) + " vs " + vstr(y.after.vel);
+        if (!same_bits(x.after.best, y.after.best)) return at + "best positions after the call " + vstr(x.after.best) + " vs " + vstr(y.after.best);
+        if (x.after.best_init != y.after.best_init || x.after.cache_init != y.after.cache_init) return at + "flags after the call";
+        if (x.draws != y.draws) return at + "draws consumed"; }
+    if (a.log.ev.size() != b.log.ev.size() || a.log.data.size() != b.log.data.size()) return "callback log length";
+    for(size_t i=0;i<a.log.ev.size();i++) if (a.log.ev[i].t != b.log.ev[i].t || a.log.ev[i].ans != b.log.ev[i].ans || a.log.ev[i].nx != b.log.ev[i].nx || a.log.ev[i].ny != b.log.ev[i].ny) return "callback " + std::to_string(i) + " kind/shape";
+    if (!same_bits_n(a.log.data.data(), b.log.data.data(), a.log.data.size())) return "callback arguments/values";
+    return "";
 }
 
 // ---------------------------------------------------------------- cases
@@ -194,6 +248,11 @@ static void check_exec(const Cfg &c, const Case &k, const Exec &ex, Delta &d, lo
 static void exec_case(const Cfg &c, const Case &k, Delta &d){
     Exec ex; run_library(c, k.prog, k.s, ex); d.execs++;
     long inv = 0, totv = 0; check_exec(c, k, ex, d, inv, totv);
+    if (k.kind == 'A' || k.kind == 'D'){ // the raw-array overloads and the C interface are the same machine: identical executions on the same program and answers
+        std::string ed = EDITNAME[0]; for(auto &op : k.prog) if (op.t == 'E') ed = EDITNAME[op.v];
+        for(int api=1; api<=2; api++){ Exec ea; run_library(c, k.prog, k.s, ea, api); d.execs++; d.evals++; std::string df = exec_difference(ex, ea);
+            if (!df.empty()) d.viol(std::string("C20:api-variants-differ:") + APINAME[api] + ":" + ed, CJ, std::string(APINAME[api]) + " and " + APINAME[0] + " executions of " + prog_text(k.prog) + " differ: " + df); }
+    }
     if (ex.calls.empty()) return;
     const Snap &fin = ex.calls.back().after;
     d.dist(hcomb(c.hash(), hcomb(hvec(fin.pos), hcomb(hvec(fin.vel), hvec(fin.best)))));
